@@ -1,28 +1,2 @@
-(* GENERATED by tools/translate/gen_methods.py from glycan.py (get_smiles), walker.py (__add_edge), factory.py (create) -- do not edit *)
-From Coq Require Import Ascii String Bool List.
-From GV Require Import Base.Util Spec.Smiles Spec.Chem Model.Gate Model.Edge.
-Import ListNotations.
-Open Scope string_scope.
-
-(* Glycan.get_smiles: [merged] is what Merger.merge returns for the walked tree; checked_smiles is Gate.gate *)
-Definition gen_get_smiles (tree_only tree_full full : bool) (merged : str) : str :=
-  if ((negb tree_only) && full && (negb tree_full)) then [] else gate merged.
-
-(* TreeWalker.__add_edge: the label stored on the edge (parent <> child), and the value handed back to 'full' *)
-Definition head1 (s : string) : string := match s with String c _ => String c EmptyString | EmptyString => EmptyString end.
-Definition tail1 (s : string) : string := match s with String _ r => r | EmptyString => EmptyString end.
-Definition gen_add_edge (ketose : bool) (con : string) : string :=
-  (let con := (if ((negb (has_char "("%char con)) && (negb (has_char ")"%char con))) then (let con := (if (negb (has_char "-"%char con)) then (let bond := (if ketose then "2-" else "1-") in (let con := (((head1 con) ++ bond) ++ (tail1 con)) in con)) else con) in (let con := (("(" ++ con) ++ ")") in con)) else con) in con).
-Definition gen_edge_ok (label : string) : bool := negb (has_char "?"%char label).
-
-(* MonomerFactory.create: the table a residue is taken from; in_p / in_f / in_o: the looked-up name (with its
-   anomer prefix) is a key of the pyranose / furanose / open-form table, ring: the ring letter written, if any *)
-Inductive choice := CPyranose | CFuranose | COpen | CSuc | CUnknown.
-Definition ring_not (c : ascii) (ring : option ascii) : bool := match ring with None => true | Some d => negb (Ascii.eqb d c) end.
-Definition ring_is (c : ascii) (ring : option ascii) : bool := match ring with None => false | Some d => Ascii.eqb d c end.
-Definition gen_create_choice (in_p in_f in_o is_suc : bool) (ring : option ascii) : choice :=
-  if (in_p && (ring_not "f"%char ring)) then CPyranose
-  else if (in_f && (ring_not "p"%char ring)) then CFuranose
-  else if in_o then COpen
-  else if is_suc then CSuc
-  else CUnknown.
+(* translator failed: get_smiles: the computation of the SMILES is not 'walk; checked_smiles(merge(...))': self.parse_tree, self.tree_full = TreeWalker(self.factory, False).parse(self.grammar_tree) | self.glycan_smiles = checked_smiles(Merger(self.factory).merge(self.parse_tree, start=self.start)) *)
+Translation failed.
